@@ -8,6 +8,8 @@ import subprocess
 import sys
 
 SRC = sys.argv[1] if len(sys.argv) > 1 else '/tmp/seed_out'
+OFFSET = int(sys.argv[2]) if len(sys.argv) > 2 else 0      # round 2 stores its m1, m2 as m3, m4
+ROUND = 1 + OFFSET // 2
 SKIP = {('C19', 'm1'): 'breaks only "S(q-quantile) == target" for a quantile-derived `a` with explicit r != 1, which the statement of C19 does not promise'}
 
 
@@ -15,6 +17,8 @@ def main():
     out_root = '/verif/seeded'
     os.makedirs(out_root, exist_ok=True)
     table = {}
+    if os.path.exists(os.path.join(out_root, 'DETECTION.json')):
+        table = json.load(open(os.path.join(out_root, 'DETECTION.json')))
     for p in ['C%02d' % i for i in range(1, 21)]:
         for k in ('m1', 'm2'):
             d = os.path.join(SRC, p, k)
@@ -30,7 +34,7 @@ def main():
             if not ok:
                 print('NOT CONFIRMED', p, k, conf.get('error'))
                 continue
-            if (p, k) in SKIP:
+            if (p, k) in SKIP and OFFSET == 0:
                 print('skipped', p, k, SKIP[(p, k)])
                 continue
             r = subprocess.run(['bash', '/verif/tools_seed_quick.sh', d], stdout=subprocess.PIPE, stderr=subprocess.STDOUT, text=True)
@@ -38,12 +42,14 @@ def main():
             det = re.findall(r'(C\d\d)\(rc=1\)', line)
             errs = re.findall(r'(C\d\d)\(rc=2\)', line)
             reports = [l.strip()[:400] for l in r.stdout.splitlines() if l.startswith('  src')][:3]
-            dst = os.path.join(out_root, '%s-%s' % (p, k))
+            kk = 'm%d' % (int(k[1:]) + OFFSET)
+            dst = os.path.join(out_root, '%s-%s' % (p, kk))
             os.makedirs(dst, exist_ok=True)
             shutil.copy(os.path.join(d, 'patch.diff'), dst)
             shutil.copy(os.path.join(d, 'demo.py'), dst)
             m = {
                 'breaks_property': p,
+                'round': ROUND,
                 'files': conf.get('files'),
                 'summary': meta.get('summary'),
                 'needs_to_manifest': meta.get('needs'),
@@ -65,8 +71,8 @@ def main():
                 },
             }
             json.dump(m, open(os.path.join(dst, 'meta.json'), 'w'), indent=1)
-            table['%s-%s' % (p, k)] = det
-            print(p, k, det, errs)
+            table['%s-%s' % (p, kk)] = det
+            print(p, kk, det, errs)
     json.dump(table, open(os.path.join(out_root, 'DETECTION.json'), 'w'), indent=1)
 
 
